@@ -806,4 +806,73 @@ theorem calm_run {cfg : Cfg} (evs : List Ev) {c : Conn} (h : Calm c) (he : ∀ e
     exact ih (calm_step h e (he e (by simp))) (fun e' he' => he e' (by simp [he']))
 
 
+/-! ## A failing call does not disturb the others -/
+
+/-- Without an unpicklable result in the queue the send loop never cancels a handler. -/
+theorem sendLoop_keeps_inflight (n : Nat) (c : Conn) (h : ∀ d ∈ c.queue, d.out ≠ .unpicklable) :
+    (sendLoop n c).inflight = c.inflight ∧ (sendLoop n c).cancelled = c.cancelled := by
+  induction n generalizing c with
+  | zero => exact ⟨rfl, rfl⟩
+  | succ n ih =>
+    unfold sendLoop
+    split
+    · exact ⟨rfl, rfl⟩
+    · split
+      · split <;> exact ⟨rfl, rfl⟩
+      · rename_i d q hq
+        have hd : d.out ≠ .unpicklable := h d (by rw [hq]; simp)
+        have hq' : ∀ d' ∈ q, d'.out ≠ .unpicklable := fun d' hd' => h d' (by rw [hq]; simp [hd'])
+        cases hdo : d.out with
+        | unpicklable => exact absurd hdo hd
+        | result | usage _ | internal _ | rejected _ =>
+          split
+          · exact ⟨rfl, rfl⟩
+          · simp only
+            split
+            · exact ⟨rfl, rfl⟩
+            · exact ih _ hq'
+
+theorem complete_keeps_inflight {c : Conn} (hi : Idle c) (call : Call) (o : Outcome) (ho : o ≠ .unpicklable) :
+    (complete c call o).inflight = c.inflight ∧ (complete c call o).cancelled = c.cancelled := by
+  unfold complete
+  split
+  · unfold runSend
+    cases hb : c.sendBlocked with
+    | true =>
+      unfold sendLoop
+      simp
+    | false =>
+      have hq := hi.1 hb
+      refine sendLoop_keeps_inflight _ _ ?_
+      intro d hd
+      simp only [hq, List.nil_append, List.mem_singleton] at hd
+      subst hd
+      exact ho
+  · exact ⟨rfl, rfl⟩
+
+theorem settleRecv_inflight (c : Conn) :
+    (settleRecv c).inflight = c.inflight ∧ (settleRecv c).cancelled = c.cancelled := by
+  unfold settleRecv; split <;> exact ⟨rfl, rfl⟩
+
+/-- A handler that ends with a result or an exception leaves every other handler running. -/
+theorem step_complete_keeps_others {cfg : Cfg} {c : Conn} (h : Inv cfg c) (k : Nat) (o : Outcome)
+    (ho : o ≠ .unpicklable) (x : Call) (hx : x ∈ c.inflight) (hne : c.invoked[k]?.map (·.1) ≠ some x) :
+    x ∈ (step cfg c (.complete k o)).inflight ∧ (step cfg c (.complete k o)).cancelled = c.cancelled := by
+  unfold step
+  rw [(settleRecv_inflight _).1, (settleRecv_inflight _).2]
+  simp only [stepCore]
+  split
+  · exact ⟨hx, rfl⟩
+  · rename_i call name hk
+    split
+    · have hi : Idle { c with inflight := c.inflight.erase call } := by simpa [Idle] using h.idle
+      obtain ⟨e1, e2⟩ := complete_keeps_inflight hi call o ho
+      rw [e1, e2]
+      refine ⟨?_, rfl⟩
+      have : x ≠ call := by
+        intro e; subst e; rw [hk] at hne; simp at hne
+      exact (List.mem_erase_of_ne this).mpr hx
+    · exact ⟨hx, rfl⟩
+
+
 end StepupModel.P.Rpc
